@@ -84,6 +84,7 @@ def gen_coq(ctx, W):
         shards.append(shard_file(ctx, f"C12_AddmS{i}", f"addm_shard_{i}",
                                  f"rect_ok (addm_kernel {KB}) (Z.to_nat {c}) (Z.to_nat {2 * KB + 1}) {s} 0"))
     shards.append(shard_file(ctx, "C12_IdS", "id_shard", "loop (Z.to_nat 1572) (of_Z 0) id_kernel"))
+    shards.append(shard_file(ctx, "C12_IdPreS", "idpre_shard", "loop (Z.to_nat 840) (of_Z (-840)) idpre_kernel"))
     shards.append(shard_file(ctx, "C12_OrdS", "ord_shard", "loop NDAYS (of_Z LO) ord_ok"))
     shards.append(shard_file(ctx, "C12_BrS", "bracket_shard", "loop NDAYS (of_Z LO) bracket_kernel"))
     shards.append(shard_file(
@@ -121,6 +122,8 @@ def gen_coq(ctx, W):
     L.append("Qed.\n")
     L.append("""Lemma id_all : forall id, 0 <= id <= 1571 -> id_kernel (of_Z id) = true.
 Proof. intros id H. apply (loop_spec _ _ _ id_shard). lia. Qed.
+Lemma idpre_all : forall id, -840 <= id <= -1 -> idpre_kernel (of_Z id) = true.
+Proof. intros id H. apply (loop_spec _ _ _ idpre_shard). lia. Qed.
 Lemma ord_all : forall o, LO <= o <= HI -> ord_ok (of_Z o) = true.
 Proof. unfold LO, HI. intros o H. apply (loop_spec _ _ _ ord_shard). unfold NDAYS, LO. lia. Qed.
 Lemma bracket_all : forall o, LO <= o <= HI -> bracket_kernel (of_Z o) = true.
@@ -352,7 +355,7 @@ def direct_oracles(ctx, n_pairs):
         if lag != b - a:
             fails.append({"law": "month-end-lag-integer", "a": str(month_ends[a]), "b": str(month_ends[b]), "lag": lag})
             break
-    for i in range(0, 1572):
+    for i in range(-840, 1572):
         s, e = du.id_to_month(i, True), du.id_to_month(i, False)
         if not (du.month_to_id(s) == i == du.month_to_id(e) and s.day == 1 and (e + one).day == 1
                 and (s.year, s.month) == (e.year, e.month) == (1970 + i // 12, i % 12 + 1)):
